@@ -43,11 +43,21 @@ def make_native(built: G.Built, c, kind: str, comps):
 
 def run(ctx) -> None:
     rng = ctx.rng
-    n_datasets = ctx.budget(30, 150)
+    n_datasets = ctx.budget(60, 300)
     items = []
     for d in range(n_datasets):
         conv = G.CONVS[d % len(G.CONVS)]
-        recipe = G.random_recipe(rng, conv, ctx.tier, **({'holes': False} if conv != 'ugrid' and conv != 'cf1d' else {}))
+        kw = {'holes': False} if conv != 'ugrid' and conv != 'cf1d' else {}
+        if conv == 'ugrid':
+            # walk the layouts of the connectivity tables systematically (stored either way round, with and
+            # without edge tables / a declared edge dimension) instead of leaving them to chance
+            u = d // len(G.CONVS)
+            kw = {'transposed': u % 2 == 1,
+                  'tables': [[], ['edge_node'], ['edge_node', 'edge_face'], ['edge_face', 'face_edge']][(u // 2) % 4],
+                  'edge_dim_declared': (u // 8) % 2 == 0}
+        recipe = G.random_recipe(rng, conv, ctx.tier, **kw)
+        # data variables in arbitrary dimension orders: the grid's shape and index order may not follow them
+        recipe = G.attach_vars(rng, recipe, n_vars=2, max_extra=1)
         built = G.build(recipe)
         c = G.bind(built)
         spec = built.grids_spec()
